@@ -494,7 +494,33 @@ pub fn nullable_chain_cfg(rng: &mut Rng) -> (Cfg, Vec<bool>) {
 pub fn big_cfg(rng: &mut Rng, max_states_hint: usize) -> (Cfg, Vec<bool>) {
     const SIZES: &[usize] = &[9, 10, 11, 10, 15, 16, 17, 16, 31, 32, 33, 32, 63, 64, 65, 64, 99, 100, 101, 120];
     let mut n = *rng.pick(SIZES);
-    match rng.below(4) {
+    match rng.below(6) {
+        4 => {
+            // one production with a very long right-hand side (16..70 symbols), inside a small list grammar
+            let len = (*rng.pick(&[16usize, 17, 31, 32, 33, 64, 65, 70])).min(70);
+            let nt = 6;
+            let mut rhs: Vec<Sym> = (0..len).map(|i| if i % 7 == 3 { Sym::N(1) } else { Sym::T(i % (nt - 1)) }).collect();
+            rhs[0] = Sym::T(nt - 1);
+            let rules = vec![
+                Rule { lhs: 0, rhs: vec![] },
+                Rule { lhs: 0, rhs: vec![Sym::N(0), Sym::N(2)] },
+                Rule { lhs: 1, rhs: vec![Sym::T(0)] },
+                Rule { lhs: 1, rhs: vec![Sym::T(1), Sym::N(1)] },
+                Rule { lhs: 2, rhs },
+            ];
+            (Cfg { nn: 3, nt, rules, start: 0 }, vec![true, true, rng.chance(0.5)])
+        }
+        5 => {
+            // many rules and many nonterminals: n nonterminals with 3 alternatives each (3n rules)
+            let n = n.min(max_states_hint / 5).max(3);
+            let mut rules = vec![];
+            for i in 0..n {
+                rules.push(Rule { lhs: i, rhs: vec![Sym::T(0), Sym::N((i + 1) % n), Sym::T(1)] });
+                rules.push(Rule { lhs: i, rhs: vec![Sym::T(2 + i % 3)] });
+                rules.push(Rule { lhs: i, rhs: vec![Sym::T(5), Sym::T(2 + (i + 1) % 3), Sym::N((i + 2) % n)] });
+            }
+            (Cfg { nn: n, nt: 6, rules, start: 0 }, (0..n).map(|_| true).collect())
+        }
         0 => {
             // many terminals, flat: S -> t_i S | t_i  (n terminals, ~2n+2 states, 2n rules)
             n = n.min(crate::lr::MAX_T - 1);
@@ -662,6 +688,17 @@ pub fn grammar_for_case(rng: &mut Rng, index: u64) -> (Source, Cfg, Vec<bool>) {
         return (source, c, f);
     }
     (source, cfg, force)
+}
+
+/// Like `grammar_for_case(rng, u64::MAX)` but never one of the big grammars (for workloads that
+/// call generate many times per grammar).
+pub fn small_grammar(rng: &mut Rng) -> (Source, Cfg, Vec<bool>) {
+    loop {
+        let (s, c, f) = grammar_for_case(rng, u64::MAX);
+        if s != Source::Big {
+            return (s, c, f);
+        }
+    }
 }
 
 fn grammar_for_case_inner(rng: &mut Rng) -> (Source, Cfg, Vec<bool>) {
